@@ -174,7 +174,7 @@ func c06Judge(c *mon.Ctx, cs *c06Case) {
 		interpreter.WithFlags(scriptflag.Flag(cs.Flags)),
 		interpreter.WithDebugger(rec),
 	}
-	if !c.Try("interpreter.Engine.Execute", func() { libErr = interpreter.NewEngine().Execute(opts...) }) {
+	if !c.Try("interpreter.Engine.Execute", func() { libErr = theEngine(c).Execute(opts...) }) {
 		return
 	}
 	agree := compareLockstep(c, "C06", in, &model, libErr, rec)
